@@ -8,6 +8,7 @@ from vlib.runner import Eval
 
 ID = "C03"
 LEVEL = "exploration"
+CGF_RUNS = {"thorough": 6000}  # coverage-guided stage (vlib/cgf.py): libFuzzer executions per worker, 16 workers
 RULE = (
     "Rules are nestings of $or/$and/$and_any_order (depth <= 3 quick, <= 4 thorough; any-order groups <= 4 children) built by describing a "
     "window of a generated listing, at instruction level, at operand level inside one item, and as $or inside a $deref field; decoy alternatives "
